@@ -3,6 +3,7 @@ import Spine.IsRnd
 import Spine.Dur
 import Spine.TimePeriod
 import Spine.DurText
+import Spine.TimeText
 open Spine Spine.Num
 /-! Line protocol for the numeric / temporal models of C19. One op per line, one answer per line.
     Member of the model family: command-line arguments `trunc=0|1 inexact=0|1` or the op `cfg t i`.
@@ -48,6 +49,17 @@ partial def digestRange (cfg : Cfg) (d : Nat) (k k1 step : Int) (h : UInt64) (cn
     let h := mixI (mixI (mix (mix (mix (mix h o.vbits) o.decimals) o.pbits) o.gbits) o.number) o.scale
     digestRange cfg d (k + step) k1 step h (cnt + 1)
 
+/-- the same digest without the run-time assertion of `IsRnd` on every rounding (the assertion is a theorem,
+    `c19_rnd_sound`; it is asserted at run time on the whole quick-tier grid and on every single value, the largest
+    sweeps of the thorough tier do without) -/
+partial def digestRangeFast (cfg : Cfg) (d : Nat) (k k1 step : Int) (h : UInt64) (cnt : Nat) : Except String (UInt64 × Nat) :=
+  if k > k1 then .ok (h, cnt) else
+  let o := observe cfg (parseDec k d)
+  if !o.inRange then .error s!"range {k}"
+  else
+    let h := mixI (mixI (mix (mix (mix (mix h o.vbits) o.decimals) o.pbits) o.gbits) o.number) o.scale
+    digestRangeFast cfg d (k + step) k1 step h (cnt + 1)
+
 def periodStr (p : Dur.Period) : String := s!"{p.years} {p.months} {p.days} {p.hours} {p.minutes} {p.tenths}"
 
 partial def digestDur (z z1 step : Int) (h : UInt64) (cnt : Nat) : UInt64 × Nat :=
@@ -74,6 +86,36 @@ partial def digestDurText (z z1 step : Int) (h : UInt64) (cnt : Nat) : UInt64 ×
     | some ns => if ns % 100000000 == 0 then ns / 100000000 else -9223372036854775808
     | none => -9223372036854775808
   digestDurText (z + step) z1 step (mixI h back) (cnt + 1)
+
+
+/-! instants at the level of the text (`Spine.TimeText`) -/
+
+def layoutsOf (w : String) : List (List TimeText.Elem) := (w.splitOn "|").map fun l => TimeText.lex (textOf l)
+
+def showInstant : Option TimeText.Instant → String
+  | some i => s!"{i.sec} {i.ns} {i.off}"
+  | none => "err"
+
+/-- `GetTime` over the layouts `ls` (all inside the model, else `range`) -/
+def answerGet (ls : List (List TimeText.Elem)) (t : DurText.Text) : String :=
+  if !(ls.all (TimeText.supported true)) then "range" else showInstant (TimeText.getTime ls t)
+
+def answerNew (es : List TimeText.Elem) (rounds utc : Bool) (sec : Int) (ns : Nat) (off : Int) : Option DurText.Text :=
+  if !(TimeText.supported false es) || ns ≥ 1000000000 then none
+  else TimeText.newDateTimeTypeFromTime es rounds utc sec ns off
+
+/-- digest over the texts written for `sec = s, s+step, … ≤ s1` and what `GetTime` reads them as -/
+partial def digestInstants (fes : List TimeText.Elem) (ls : List (List TimeText.Elem)) (rounds utc : Bool)
+    (s s1 step : Int) (ns : Nat) (off : Int) (h : UInt64) (cnt : Nat) : Except String (UInt64 × Nat) :=
+  if s > s1 then .ok (h, cnt) else
+  match answerNew fes rounds utc s ns off with
+  | none => .error s!"range {s}"
+  | some t =>
+    let h := t.foldl mix h
+    let h := match TimeText.getTime ls t with
+      | some i => mixI (mix (mixI h i.sec) i.ns) i.off
+      | none => mix h 7
+    digestInstants fes ls rounds utc (s + step) s1 step ns off h (cnt + 1)
 
 /-- `-`, `r:<ns>` or `a:<ns>` -/
 def parseT (w : String) : Option TP.T :=
@@ -117,6 +159,13 @@ def answer (cfg : Cfg) (ws : List String) : Cfg × String :=
       | .ok (h, n) => (cfg, s!"digest {h.toNat} {n}")
       | .error e => (cfg, e)
     | _, _, _, _ => (cfg, "bad-op")
+  | ["srangef", d, k0, k1, step] => match d.toNat?, k0.toInt?, k1.toInt?, step.toInt? with
+    | some d, some k0, some k1, some step =>
+      if step ≤ 0 then (cfg, "bad-op") else
+      match digestRangeFast cfg d k0 k1 step (UInt64.ofNat 1469598103934665603) 0 with
+      | .ok (h, n) => (cfg, s!"digest {h.toNat} {n}")
+      | .error e => (cfg, e)
+    | _, _, _, _ => (cfg, "bad-op")
   | ["getval", n, s] => match n.toInt?, s.toInt? with
     | some n, some s =>
       if s < -4 || s > 4 then (cfg, "range") else
@@ -146,6 +195,26 @@ def answer (cfg : Cfg) (ws : List String) : Cfg × String :=
       let (h, n) := digestDur z0 z1 step (UInt64.ofNat 1469598103934665603) 0
       (cfg, s!"digest {h.toNat} {n}")
     | _, _, _ => (cfg, "bad-op")
+  | ["tfmt", l, sec, ns, off] => match sec.toInt?, ns.toNat?, off.toInt? with
+    | some sec, some ns, some off =>
+      let es := TimeText.lex (textOf l)
+      if !(TimeText.supported false es) || ns ≥ 1000000000 then (cfg, "range") else
+      (cfg, match TimeText.format es sec ns off with | some t => strOf t | none => "range")
+    | _, _, _ => (cfg, "bad-op")
+  | ["tparse", ls, w] => (cfg, answerGet (layoutsOf ls) (textOf w))
+  | ["tnew", l, r, u, sec, ns, off] => match r.toNat?, u.toNat?, sec.toInt?, ns.toNat?, off.toInt? with
+    | some r, some u, some sec, some ns, some off =>
+      (cfg, match answerNew (TimeText.lex (textOf l)) (r != 0) (u != 0) sec ns off with | some t => strOf t | none => "range")
+    | _, _, _, _, _ => (cfg, "bad-op")
+  | ["tsweep", l, ls, r, u, s0, s1, step, ns, off] =>
+    match r.toNat?, u.toNat?, s0.toInt?, s1.toInt?, step.toInt?, ns.toNat?, off.toInt? with
+    | some r, some u, some s0, some s1, some step, some ns, some off =>
+      let pls := layoutsOf ls
+      if step ≤ 0 then (cfg, "bad-op") else if !(pls.all (TimeText.supported true)) then (cfg, "range") else
+      match digestInstants (TimeText.lex (textOf l)) pls (r != 0) (u != 0) s0 s1 step ns off (UInt64.ofNat 1469598103934665603) 0 with
+      | .ok (h, n) => (cfg, s!"digest {h.toNat} {n}")
+      | .error e => (cfg, e)
+    | _, _, _, _, _, _, _ => (cfg, "bad-op")
   | ["endof", now, d] => match now.toInt?, d.toInt? with
     | some now, some d => (cfg, toString (TP.endOf now d))
     | _, _ => (cfg, "bad-op")
